@@ -93,6 +93,7 @@ class Env:
 
 
 LOGGER_NAMES = {"_LOGGER", "LOGGER"}
+UNROLL_SUSPENDING_LOOP = 8
 
 _NOT_FOUND = object()
 
@@ -1805,6 +1806,12 @@ class Interp:
             if r is not NotImplemented:
                 return
         n = 0
+        # a loop without a contract whose iterations suspend (every iteration forks on the outcomes of its awaits):
+        # explored up to a small number of iterations only -- beyond that the function is outside reach (bounded
+        # exploration, never counted as proved); what the explored paths refute is still replayed on the real code
+        limit = 10000
+        if any(isinstance(x, (ast.Await, ast.AsyncWith, ast.AsyncFor)) for x in ast.walk(node)):
+            limit = UNROLL_SUSPENDING_LOOP
         while True:
             c = self.eval(node.test, env)
             f = self.formula(c)
@@ -1813,8 +1820,9 @@ class Interp:
             if not f:
                 break
             n += 1
-            if n > 10000:
-                raise Unsupported("concrete while loop too long")
+            if n > limit:
+                raise Unsupported("concrete while loop too long" if limit == 10000 else
+                                  f"suspending loop without a contract: more than {limit} iterations (bounded exploration only)")
             try:
                 self.exec_block(node.body, env)
             except BreakSig:
